@@ -47,8 +47,9 @@ def run_cli(world, flags=None, key_via='flags', window=None, out_name='out.log',
         for f in sorted(os.listdir(work)):
             outs[f] = open(os.path.join(work, f), 'rb').read()
         tmpfiles = {}
-        for f in sorted(os.listdir(tmp)):
-            tmpfiles[f] = open(os.path.join(tmp, f), 'rb').read()
+        for root, _, fs in os.walk(tmp):          # files at any depth (a private sub-directory of the temp directory is as good a place as any); empty directories are no downloaded logs
+            for f in sorted(fs):
+                tmpfiles[os.path.relpath(os.path.join(root, f), tmp)] = open(os.path.join(root, f), 'rb').read()
         return {'rc': p.returncode, 'stdout': p.stdout, 'stderr': p.stderr, 'requests': reqs, 'outs': outs, 'tmp': tmpfiles, 't0': t0, 't1': t1, 'argv': argv[1:]}
     finally:
         shutil.rmtree(d, ignore_errors=True)
